@@ -112,12 +112,12 @@ def get_peak_array_indices(values, ptype='all'):
     peak_cleaned_indices = determine_indices_of_peaks_for_cleaned_array(cleaned_values)
     peak_full_indices = np.take(non_zero_indices, peak_cleaned_indices)
     if ptype == 'min':
-        if values[1] - values[0] <= 0:
+        if values[peak_full_indices[1]] - values[0] <= 0:
             return peak_full_indices[1::2]
         else:
             return peak_full_indices[::2]
     elif ptype == 'max':
-        if values[1] - values[0] > 0:
+        if values[peak_full_indices[1]] - values[0] > 0:
             return peak_full_indices[1::2]
         else:
             return peak_full_indices[::2]
